@@ -297,6 +297,7 @@ def run_ds_blocks(c):
     grafted = ds_run(c, graft, {"w": shape}, [{"w": g} for g in hist], beta1=0.0) if graft else None
     nst = rank if rank >= 1 else 0
     dead = [False] * nb
+    rec["streams"] = nb
     # ---- plan observation (layout of the blocked leaf's state)
     rec["plan"] = {"nstats": len(whole[0]["w"][1]["stats"]), "sizes": [int(s.shape[0]) for s in whole[0]["w"][1]["stats"]]}
     # ---- slot contents: statistic (block b, axis a) is the decayed Gram matrix of exactly that slice
@@ -414,6 +415,7 @@ def run_ds_companions(c):
         full = ds_run(c, graft, shapes, [{**{n: hist[n][t] for n in leaves}, **{n: ch[n][t] for n in cshapes}} for t in range(T)])
         for n in sorted(leaves):
             dead = False
+            rec["streams"] = rec.get("streams", 0) + 1
             rank = len(leaves[n])
             p = 2 * max(rank, 1)
             for t in range(T):
@@ -713,10 +715,10 @@ def gen_tasks(tier, seed, thr, cut):
     rng = random.Random(1000003 * seed + 8)
     quick = tier == "quick"
     tasks = []
-    n_blocks = 26 if quick else 150
-    n_comp = 18 if quick else 100
-    n_tf = 22 if quick else 120
-    n_root = 30 if quick else 200
+    n_blocks = 24 if quick else 90
+    n_comp = 18 if quick else 70
+    n_tf = 20 if quick else 80
+    n_root = 30 if quick else 150
     for i in range(n_blocks):
         shape, block = _shape_for_blocks(rng)
         root = "eigh" if i % 2 else "newton"
@@ -728,16 +730,20 @@ def gen_tasks(tier, seed, thr, cut):
     for i in range(n_comp):
         nl = rng.choice([1, 1, 2])
         leaves = {}
-        block = rng.choice([3, 4, 5, 8, 32])
+        block = rng.choice([4, 6, 8, 32, 32])
         for j in range(nl):
             rank = rng.choice([1, 2, 2, 3])
             leaves["k%d" % j] = [rng.randint(2, 9) for _ in range(rank)]
+        own = max(min(d, block) for sh in leaves.values() for d in sh)
+        comps = [_rand_companions(rng, rng.choice([1, 2, 4])) for _ in range(2)]
+        if own < block:      # one variant certainly raises max_size (every statistic of the leaves of interest gets padded)
+            big = min(block, own + rng.choice([1, 2, 5, 11]))
+            comps[1][0] = [comps[1][0][0], [big, rng.choice([2, 3])] if rng.random() < 0.7 else [big], comps[1][0][2]]
         tasks.append({"kind": "ds_companions", "seed": rng.randrange(1 << 30), "leaves": leaves, "block": block,
                       "root": "eigh" if i % 2 else "newton", "T": rng.choice([2, 3, 4]), "beta2": rng.choice([1.0, 0.9, 0.999]),
                       "beta1": rng.choice([0.0, 0.9]), "nesterov": rng.random() < 0.5, "scales": rng.choice(["wide", "one"]),
                       "graft": rng.choice(GRAFTS + ["NONE"]), "x64": rng.random() < 0.4, "thr": thr,
-                      "meps": rng.choice([1e-6, 1e-6, 1e-3, 1e-2]),
-                      "companions": [_rand_companions(rng, rng.choice([1, 2, 4])) for _ in range(2)]})
+                      "meps": rng.choice([1e-6, 1e-6, 1e-3, 1e-2]), "companions": comps})
     for i in range(n_tf):
         shape, block = _shape_for_blocks(rng, tf=True)
         tasks.append({"kind": "tf_blocks", "seed": rng.randrange(1 << 30), "shape": shape, "block": block,
@@ -981,6 +987,10 @@ def execute(ctx, tasks, rat_n=0):
         ctx.dist("bitwise_equal." + k, r["bitwise"])
         for f, c in r["flips"].items():
             ctx.dist("classified." + f, c)
+            if k in ("ds_blocks", "ds_companions") and "graft" not in f:
+                ctx.cov["flip_streams"] = ctx.cov.get("flip_streams", 0) + c
+        if k in ("ds_blocks", "ds_companions"):
+            ctx.cov["streams"] = ctx.cov.get("streams", 0) + r.get("streams", 0)
         if r.get("reexam_suspect"):
             ctx.dist("flip_reexamination.suspect_roots", r["reexam_suspect"])
             ctx.notes.append(f"flip re-examination: {r['reexam_suspect']} stored root(s) do not meet their own residual bound: "
@@ -1043,6 +1053,10 @@ def run(ctx):
         "power_iteration's start vector is prefix-stable (numpy RandomState) and max_eigen_value of padded / unpadded statistics agree",
     ]
     recs = execute(ctx, tasks, rat_n=12 if ctx.tier == "quick" else 60)
+    st_, fl_ = ctx.cov.get("streams", 0), ctx.cov.get("flip_streams", 0)
+    if st_ >= 40 and fl_ > 0.25 * st_:
+        ctx.disagree("flip_rate", {"streams": st_, "classified_flips": fl_}, fl_, "< 25% of the compared (leaf, history) streams",
+                     "two runs of the same statistics take different root branches / gate decisions too often for the comparison to mean anything")
     mr = {}
     for r in recs:
         if "exception" in r:
